@@ -897,7 +897,7 @@ def lift_sites(facts, g, bb, depth=0, std=False):
         if ck not in cache:
             import queue_rules as Q_
             cache[ck] = inline.inlined(facts, top.id, stop=lambda d, top=top: facts.fns[d].rec.get("local") and (facts.fns[d].file != top.file or (facts.fns[d].rec.get("impl_trait") == T_READ and d != g.id and d != top.id)),
-                                       extern_ok=Q_.std_small if std else None)
+                                       extern_ok=Q_.std_small if std else (lambda d_: False))      # (no std bodies, but pipelines read as loops)
         R = cache[ck]
         hit = [b for b in range(R.n) if R.blocks[b].get("src") == g.id and R.blocks[b].get("obb") == bb and not R.blocks[b].get("synthetic")]
         if hit:
